@@ -1,5 +1,187 @@
-//! unmanaged-pool replay (filled in with the unmanaged world)
-use serde_json::Value;
-pub fn run(_trace: &Value) {
-    panic!("unmanaged replay not built yet");
+//! unmanaged-pool replay: same protocol as the managed driver (one JSON line of observations per trace step)
+use std::collections::HashMap;
+use std::future::Future;
+use std::panic::{catch_unwind, AssertUnwindSafe};
+use std::pin::Pin;
+use std::sync::mpsc;
+use std::sync::{Arc, Mutex};
+use std::task::{Context, Poll};
+use std::time::Duration;
+
+use deadpool::unmanaged::{Object, Pool, PoolConfig, PoolError};
+use deadpool::Runtime;
+use serde_json::{json, Value};
+
+use crate::{actor_of, ev, noop_waker, sync_point, Report, Sh, Shared, WorkerCtx, CTX};
+
+pub struct UObj {
+    pub id: u64,
+    sh: Sh,
+}
+impl Drop for UObj {
+    fn drop(&mut self) {
+        let a = actor_of(&self.sh);
+        ev(&self.sh, json!(["destroy", format!("obj:{}", self.id), a]));
+    }
+}
+
+fn new_obj(sh: &Sh) -> UObj {
+    let id = { let mut g = sh.lock().unwrap(); g.next_id += 1; g.next_id };
+    UObj { id, sh: sh.clone() }
+}
+
+fn err_desc(e: &PoolError) -> &'static str {
+    match e { PoolError::Timeout => "Timeout", PoolError::Closed => "Closed", PoolError::NoRuntimeSpecified => "NoRuntimeSpecified" }
+}
+
+enum Out { Obj(Object<UObj>), Raw(UObj), Added(Result<(), (UObj, PoolError)>) }
+type UFut = Pin<Box<dyn Future<Output = Result<Out, PoolError>>>>;
+#[derive(Default)]
+struct UTask { fut: Option<UFut>, objs: Vec<Object<UObj>> }
+
+fn finish(sh: &Sh, t: &mut UTask, r: Result<Out, PoolError>) -> Value {
+    match r {
+        Ok(Out::Obj(o)) => { let id = format!("obj:{}", o.id); t.objs.push(o); json!(["ok", "object", id]) }
+        Ok(Out::Raw(o)) => { let id = format!("obj:{}", o.id); ev(sh, json!(["handed", id, "remove"])); drop(o); json!(["ok", "removed", id]) }
+        Ok(Out::Added(Ok(()))) => json!(["ok", "added"]),
+        Ok(Out::Added(Err((o, e)))) => { let id = format!("obj:{}", o.id); ev(sh, json!(["handed", id, "refused_add"])); drop(o); json!(["err", err_desc(&e), id]) }
+        Err(e) => json!(["err", err_desc(&e)]),
+    }
+}
+
+fn exec(pool: &Pool<UObj>, sh: &Sh, tasks: &mut HashMap<String, UTask>, step: &Value) -> Value {
+    let a = &step["act"]; let kind = a[0].as_str().unwrap();
+    let waker = noop_waker(); let mut cx = Context::from_waker(&waker);
+    let tname = step["thread"].as_str().unwrap().to_string();
+    let t = tasks.entry(tname).or_default();
+    match kind {
+        "uget" | "uadd" | "poll" => {
+            if kind != "poll" {
+                let v = &step["variant"];
+                let name = if v.is_array() { v[0].as_str().unwrap().to_string() } else { v.as_str().unwrap().to_string() };
+                let p = pool.clone();
+                match name.as_str() {
+                    "try_get" => { let r = catch_unwind(AssertUnwindSafe(|| p.try_get()));
+                        return match r { Ok(r) => finish(sh, t, r.map(Out::Obj)), Err(_) => json!(["panic"]) }; }
+                    "try_remove" => { let r = catch_unwind(AssertUnwindSafe(|| p.try_remove()));
+                        return match r { Ok(r) => finish(sh, t, r.map(Out::Raw)), Err(_) => json!(["panic"]) }; }
+                    "try_add" => { let o = new_obj(sh); let r = catch_unwind(AssertUnwindSafe(|| p.try_add(o)));
+                        return match r { Ok(r) => finish(sh, t, Ok(Out::Added(r))), Err(_) => json!(["panic"]) }; }
+                    "get" => t.fut = Some(Box::pin(async move { p.get().await.map(Out::Obj) })),
+                    "remove" => t.fut = Some(Box::pin(async move { p.remove().await.map(Out::Raw) })),
+                    "timeout_get" => { let d = if v[1].is_null() { None } else { Some(Duration::from_nanos(v[1].as_u64().unwrap())) };
+                        t.fut = Some(Box::pin(async move { p.timeout_get(d).await.map(Out::Obj) })) }
+                    "add" => { let o = new_obj(sh); t.fut = Some(Box::pin(async move { Ok(Out::Added(p.add(o).await)) })) }
+                    other => panic!("variant {}", other),
+                }
+            }
+            let mut f = t.fut.take().expect("no future");
+            match catch_unwind(AssertUnwindSafe(|| f.as_mut().poll(&mut cx))) {
+                Err(_) => { let _ = catch_unwind(AssertUnwindSafe(move || drop(f))); json!(["panic"]) }
+                Ok(Poll::Pending) => { t.fut = Some(f); json!(["pending"]) }
+                Ok(Poll::Ready(r)) => finish(sh, t, r),
+            }
+        }
+        "cancel" => { let f = t.fut.take().expect("no future"); if catch_unwind(AssertUnwindSafe(move || drop(f))).is_ok() { json!(["cancelled"]) } else { json!(["panic"]) } }
+        "drop" => { let o = t.objs.remove(a[2].as_u64().unwrap() as usize); if catch_unwind(AssertUnwindSafe(move || drop(o))).is_ok() { json!(["ok"]) } else { json!(["panic"]) } }
+        "take" => { let o = t.objs.remove(a[2].as_u64().unwrap() as usize);
+            let r = catch_unwind(AssertUnwindSafe(|| { let raw = Object::take(o); ev(sh, json!(["handed", format!("obj:{}", raw.id), "take"])); drop(raw); }));
+            if r.is_ok() { json!(["ok", "taken"]) } else { json!(["panic"]) } }
+        "close" => { if catch_unwind(AssertUnwindSafe(|| pool.close())).is_ok() { json!(["ok"]) } else { json!(["panic"]) } }
+        "status" => { let s = pool.status(); json!(["ok", [s.max_size, s.size, s.available, s.waiting]]) }
+        "is_closed" => json!(["ok", pool.is_closed()]),
+        other => panic!("unknown action {}", other),
+    }
+}
+
+fn observe(pool: &Pool<UObj>) -> (Value, Value) {
+    match catch_unwind(AssertUnwindSafe(|| observe_inner(pool))) { Ok(v) => v, Err(_) => (json!("panic"), json!("panic")) }
+}
+
+fn observe_inner(pool: &Pool<UObj>) -> (Value, Value) {
+    let s = pool.status(); let n = pool.verif_snapshot();
+    (json!([s.max_size, s.size, s.available, s.waiting]),
+     json!({"permits": n.permits, "size_permits": n.size_permits, "closed": n.closed, "size": n.size, "available": n.available, "queue": n.queue, "max_size": n.max_size}))
+}
+
+fn build(trace: &Value, sh: &Sh) -> Pool<UObj> {
+    let p = &trace["pool"];
+    match p["ctor"].as_str().unwrap() {
+        "new" => Pool::new(p["max_size"].as_u64().unwrap() as usize),
+        "from_config" => {
+            let mut c = PoolConfig::new(p["max_size"].as_u64().unwrap() as usize);
+            c.timeout = if p["config_timeout"].is_null() { None } else { Some(Duration::from_nanos(p["config_timeout"].as_u64().unwrap())) };
+            c.runtime = if p["runtime"].as_bool().unwrap() { Some(Runtime::Tokio1) } else { None };
+            Pool::from_config(&c)
+        }
+        _ => { let n = p["initial"].as_u64().unwrap(); let v: Vec<UObj> = (0..n).map(|_| new_obj(sh)).collect(); Pool::from(v) }
+    }
+}
+
+pub fn run(trace: &Value) {
+    let sh: Sh = Arc::new(Mutex::new(Shared::default()));
+    if trace["threads"].as_bool().unwrap_or(false) { return run_threads(trace, sh); }
+    let rt = tokio::runtime::Builder::new_current_thread().enable_time().start_paused(true).build().unwrap();
+    rt.block_on(async {
+        let pool = build(trace, &sh);
+        println!("{}", json!({"i": -1, "res": ["built"], "events": []}));
+        let mut tasks: HashMap<String, UTask> = HashMap::new();
+        for (i, step) in trace["actions"].as_array().unwrap().iter().enumerate() {
+            sh.lock().unwrap().actor = step["thread"].as_str().unwrap().to_string();
+            if let Some(adv) = step.get("advance_ns").and_then(|v| v.as_u64()) { if adv > 0 { tokio::time::advance(Duration::from_nanos(adv)).await; } }
+            let res = exec(&pool, &sh, &mut tasks, step);
+            let (status, snap) = observe(&pool);
+            let events = std::mem::take(&mut sh.lock().unwrap().events);
+            println!("{}", json!({"i": i, "res": res, "events": events, "status": status, "snap": snap, "mismatch": null, "script_left": 0}));
+        }
+        std::mem::forget(tasks);
+    });
+}
+
+fn run_threads(trace: &Value, sh: Sh) {
+    let pool = build(trace, &sh);
+    println!("{}", json!({"i": -1, "res": ["built"], "events": []}));
+    deadpool::verif::set_point_callback(Some(Arc::new(|name: &'static str| sync_point(name))));
+    struct Worker { cmd: mpsc::Sender<Option<Value>>, resume: mpsc::Sender<()>, report: mpsc::Receiver<Report>, busy: bool }
+    let mut workers: HashMap<String, Worker> = HashMap::new();
+    let mut names: Vec<String> = vec![];
+    for step in trace["actions"].as_array().unwrap() { let n = step["thread"].as_str().unwrap().to_string(); if !names.contains(&n) { names.push(n); } }
+    for n in &names {
+        let (cmd_tx, cmd_rx) = mpsc::channel::<Option<Value>>();
+        let (res_tx, res_rx) = mpsc::channel::<()>();
+        let (rep_tx, rep_rx) = mpsc::channel::<Report>();
+        let pool2 = pool.clone(); let sh2 = sh.clone(); let name = n.clone();
+        std::thread::spawn(move || {
+            CTX.with(|c| *c.borrow_mut() = Some(WorkerCtx { name: name.clone(), report: rep_tx.clone(), resume: res_rx, cb_points: std::cell::Cell::new(false) }));
+            let mut tasks: HashMap<String, UTask> = HashMap::new();
+            while let Ok(Some(step)) = cmd_rx.recv() {
+                let r = exec(&pool2, &sh2, &mut tasks, &step);
+                rep_tx.send(Report::Done(r)).unwrap();
+            }
+            std::mem::forget(tasks);
+        });
+        workers.insert(n.clone(), Worker { cmd: cmd_tx, resume: res_tx, report: rep_rx, busy: false });
+    }
+    for (i, step) in trace["actions"].as_array().unwrap().iter().enumerate() {
+        let tname = step["thread"].as_str().unwrap();
+        let w = workers.get_mut(tname).unwrap();
+        if step["act"][0] == "step" {
+            if !w.busy { println!("{}", json!({"i": i, "res": ["driver_error", "step on an idle thread"]})); std::process::exit(0); }
+            w.resume.send(()).unwrap();
+        } else {
+            if w.busy { println!("{}", json!({"i": i, "res": ["driver_error", "new operation on a busy thread"]})); std::process::exit(0); }
+            w.busy = true; w.cmd.send(Some(step.clone())).unwrap();
+        }
+        let atomic = step["atomic"].as_bool().unwrap_or(false);
+        let res = loop { match w.report.recv_timeout(Duration::from_secs(10)) {
+            Ok(Report::AtPoint(_)) if atomic => { w.resume.send(()).unwrap(); continue; }
+            Ok(Report::AtPoint(name)) => break json!(["at_point", name]),
+            Ok(Report::Done(v)) => { w.busy = false; break v }
+            Err(_) => { println!("{}", json!({"i": i, "res": ["driver_error", "thread did not reach a schedule point (blocked?)"]})); std::process::exit(0); }
+        } };
+        let (status, snap) = observe(&pool);
+        let events = std::mem::take(&mut sh.lock().unwrap().events);
+        println!("{}", json!({"i": i, "res": res, "events": events, "status": status, "snap": snap, "mismatch": null, "script_left": 0}));
+    }
+    std::process::exit(0);
 }
